@@ -16,15 +16,33 @@ MANIFEST = dict(
           "n/k + n mod k); the random training part has (p*n+50)/100 elements; the Eigen segment copies tile `train` in "
           "bounds; sampling without replacement returns `count` strictly increasing members, with replacement `count` "
           "sorted members, weighted sampling no position of zero weight (under the contracts of uniform_int/"
-          "discrete_distribution); points of sample_from_ball lie in the ball (over R). The model's 31 integer "
+          "discrete_distribution); points of sample_from_ball lie in the ball (over R). The model's integer "
           "expressions are regenerated from kfold.cpp/random.cpp/sampling.cpp/numeric.h on every run; the extracted model "
           "replays the position permutations / draws observed from the real libstdc++ calls and is compared exactly with "
           "the library on the exhaustive small grid and on random inputs up to n=5000; the property itself is checked "
-          "directly on every implementation result (thorough: the full n<=40 x folds<=12 x 1025 seeds x 81 percentages grid)."),
-    note=("Coq kernel; translator (31 kernels); extraction (ExtrOcamlBasic); harness + OCaml driver; std::shuffle, "
-          "uniform_int_distribution, discrete_distribution are oracles whose answers are observed and whose contracts "
-          "(permutation / range / positive weight) are checked on every answer; std::sort modelled as merge sort; "
-          "float rounding inside sample_from_ball and discrete_distribution not modelled."),
+          "directly on every implementation result (thorough: the full n<=40 x folds<=12 x 1025 seeds x 81 percentages grid). "
+          "EXTENSION. (1) sample_from_ball in binary64 through Flocq: for the computation as written, x_k = fl(x0_k + "
+          "fl(fl(fl(radius z) u_k) / nrm)), with nrm ANY value an Eigen reduction can return (every summation tree over the "
+          "rounded squares, then a correctly rounded sqrt: C12_fl_norm_any_tree), |x - x0|_2 <= radius (1 + g(n+5)) + "
+          "2^-53 |x0|_2 with g(k) = (1+2^-53)^k - 1 <= k u / (1 - k u) (C12_fl_ball, _any_norm, _any_tree, _constant), the same "
+          "for the executable PrimFloat twin (C12_fl_ball_twin) whose operator tree is proved equal to the expression translated "
+          "from sampling.cpp on every run (C12_fl_shape_is_source); 'inside the ball' itself is refuted in binary64 with a witness "
+          "that lands outside (C12_fl_ball_inside_refuted). Hypotheses: z = pow(unif, 1/n) in [0,1] (libm), u <> 0, no underflow -- "
+          "evaluated on every observed call. The twin is compared BIT FOR BIT with the library on every sampled point (oracle inputs: "
+          "deviates, z and the norm re-derived on a copy of the generator), and the harness checks the PROVED bound on every sample. "
+          "(2) gboost::sampler_t::sample: dispatch table (the translated `return` of every case), allocation and index expressions "
+          "of the two weight loops (translated), count = trunc(fl(ratio * n)) proved = floor of the ROUNDED product, in [0, n], "
+          "= k n / 2^j for dyadic ratios (C12_gb_count_*; decimal ratios and the exact-product floor refuted), every kind returns "
+          "sorted members (`count` of them; distinct for subsample; off returns the input), the weighted kinds never return a sample "
+          "whose own loss / gradient magnitude is not positive (C12_gb_sample, C12_gb_weighted_support, C12_gb_weights, _layout, "
+          "_dispatch); the model is compared exactly with every sampler call of the run."),
+    note=("Coq kernel + standard axioms of the reals / classical logic + FloatAxioms (primitive floats = IEEE binary64); Flocq; "
+          "translator (31 + 17 kernels); extraction (ExtrOcamlBasic, ExtrOCamlFloats, ExtrOCamlInt63); harness + OCaml driver; "
+          "std::shuffle, uniform_int_distribution, discrete_distribution, normal_distribution, uniform_real_distribution, libm pow and "
+          "Eigen's lpNorm<2> are oracles whose answers are observed (re-derived on a copy of the generator) and whose contracts "
+          "(permutation / range / positive weight / z in [0,1] / norm within the any-order bound) are checked on every answer; "
+          "std::sort modelled as merge sort; the generic rounding lemmas of C12_Float.v are copied from C14_Float.v (not imported: "
+          "that file depends on C14's translated kernels); discrete_distribution's floating-point table not modelled."),
     technique="Coq proof over a translated+extracted model with observed-oracle replay, exhaustive differential correspondence",
     design="DESIGN.md section 2, C12")
 
@@ -33,11 +51,12 @@ VARIANTS = ["rel"]
 HARNESS = "c12_split"
 SPLIT_OPS = ("KFOLD", "RANDOM")
 MODEL_OPS = ("KFOLD", "RANDOM", "SWOR", "SWR", "SWRW")
+EXT_OPS = ("BALLX", "GBS")     # extension stages "ball-twin" and "gboost-model"
 
 
 def setup():
     vlib.build_harness(HARNESS, "rel", need_lib=True)
-    vlib.build_ocaml("c12_driver", "c12_model.ml", "c12_driver.ml")
+    vlib.build_ocaml("c12_driver", "c12_model.ml", "c12_driver.ml", floats=True)
 
 
 def _clip(s, n=60000):
@@ -56,7 +75,7 @@ def _case_of(line):
 
 def _replay_cmd(exe, case):
     head = case.split(" | ")[0].split(",")
-    if len(case) > 20000 or (case.startswith("SW") and len(head) > 1 and head[1].strip() == "1"):
+    if len(case) > 20000 or case.startswith("GBS") or (case.startswith("SW") and len(head) > 1 and head[1].strip() == "1"):
         # too big for a command line / produced through gboost::sampler_t (the direct sampler replay would bypass it)
         return "VERIF_SEED=<seed of this file> %s <tier of this run> | grep ^FAIL" % exe
     # the input part of the line is enough for the replay mode (the harness recomputes oracle answers and result)
@@ -86,6 +105,9 @@ def run(tier, replay=None):
     ops = collections.Counter()
     nhist = collections.Counter()
     fhist = collections.Counter()
+    gbhist = collections.Counter()
+    rhist = collections.Counter()
+    dimhist = collections.Counter()
     distinct = set()
     fails, samples, last, done = [], [], [], None
     nlines = 0
@@ -125,6 +147,17 @@ def run(tier, replay=None):
                 distinct.add(hashlib.blake2b(line.encode(), digest_size=8).digest())
                 if len(samples) < 12 and ops[op] == 5:
                     samples.append(_clip(line, 300))
+            elif op in EXT_OPS:
+                # extension stages: one line per sample_from_ball / gboost::sampler_t::sample call for the model
+                if op == "GBS":
+                    a = line.split(" | ")[0].split(" ", 1)[1].split(",")
+                    gbhist["kind=%s" % a[0]] += 1
+                    rhist[a[2]] += 1
+                    distinct.add(hashlib.blake2b(line.encode(), digest_size=8).digest())
+                else:
+                    dimhist["n<=2" if int(line.split(" ", 1)[1].split(",")[0]) <= 2 else "n<=10" if int(line.split(" ", 1)[1].split(",")[0]) <= 10 else "n<=50"] += 1
+                if len(samples) < 14 and ops[op] == 3:
+                    samples.append(_clip(line, 400))
     counts = dict(t.split("=") for t in done.split()[1:]) if done else {}
     if rc != 0 or not done:
         r.violation("crash", {"kind": "implementation-crash (signal / abort) inside a splitter or sampler call", "exit": rc, "mode": tier,
@@ -149,9 +182,10 @@ def run(tier, replay=None):
 
     # 4. correspondence with the extracted model + verified checkers on the implementation's output
     mism, propfail, checked, propchecks = [], [], 0, 0
+    ball_checked = gb_checked = 0
     drv = None
     try:
-        drv = vlib.build_ocaml("c12_driver", "c12_model.ml", "c12_driver.ml")
+        drv = vlib.build_ocaml("c12_driver", "c12_model.ml", "c12_driver.ml", floats=True)
     except (vlib.CheckError, OSError):
         if cres["ok"]:
             raise
@@ -169,8 +203,14 @@ def run(tier, replay=None):
                 elif line.startswith("MODEL-DONE"):
                     checked = int(line.split("checked=")[1].split()[0])
                     propchecks = int(line.split("propchecks=")[1].split()[0])
+                    if "ball=" in line:
+                        ball_checked = int(line.split("ball=")[1].split()[0])
+                        gb_checked = int(line.split("gboost=")[1].split()[0])
         if rc2 != 0 or (not checked and not replay):
             r.violation("driver", {"kind": "model driver failed", "out": _clip(tail, 2000)}, no_input=True)
+        elif not replay and (ball_checked == 0 or gb_checked == 0):
+            r.violation("driver-ext", {"kind": "the extension stages (ball-twin / gboost-model) compared nothing", "out": _clip(tail, 2000)},
+                        no_input=True)
         propfail.sort(key=len)
         for i, l in enumerate(propfail[:2]):
             case = _case_of(l)
@@ -190,7 +230,10 @@ def run(tier, replay=None):
     vlib.handle_coq_failure(r, cres)
     vlib.proof_coverage(r, cres, "make -C coq theories/Properties_C12.vo && coqc theories/Properties_C12.v (Print Assumptions)",
                         ["tools/translate.py (%d kernels of kfold.cpp/random.cpp/sampling.cpp/numeric.h)" % len(cres.get("kernels", [])),
-                         "extraction: ExtrOcamlBasic only; Z/nat/positive extracted as inductives",
+                         "extraction: ExtrOcamlBasic + ExtrOCamlFloats + ExtrOCamlInt63 (primitive floats / 63-bit integers mapped to OCaml's "
+                         "native floats / Uint63 of coq-core.kernel); Z/nat/positive extracted as inductives",
+                         "Flocq (standard model of binary64, IEEE754.PrimFloat bridge), FloatAxioms of Coq's primitive floats",
+                         "libm pow, Eigen lpNorm<2>, libstdc++ normal/uniform_real/discrete distributions: oracle inputs of the ball twin",
                          "ocaml/c12_driver.ml, harness/c12_split.cpp (obtains the oracle answers by calling the same libstdc++ "
                          "std::shuffle / uniform_int_distribution / discrete_distribution on the same generator state)",
                          "libstdc++: std::shuffle's position permutation does not depend on the values shuffled"])
@@ -199,6 +242,11 @@ def run(tier, replay=None):
     cov["evaluations"] = nlines + max(0, grid - ops["KFOLD"] - ops["RANDOM"])
     cov["correspondence_lines_checked"] = checked
     cov["verified_checker_applications"] = propchecks
+    cov["ball_twin_bit_exact_comparisons"] = ball_checked
+    cov["gboost_sampler_model_comparisons"] = gb_checked
+    cov["gboost_kind_histogram"] = dict(gbhist)
+    cov["gboost_ratio_histogram"] = dict(rhist)
+    cov["ball_dimension_histogram"] = dict(dimhist)
     cov["split_calls_checked_directly"] = grid
     cov["train_valid_pairs_checked_directly"] = int(counts.get("pairs", 0))
     cov["distinct_nontrivial"] = len(distinct)
@@ -220,8 +268,12 @@ def run(tier, replay=None):
     cov["unproved_clauses_searched"] = [
         "equal seeds give equal splits *on the implementation* (second call, clone, fresh object compared; the theorem C12_deterministic "
         "is about the model: dependence on the generator only through std::shuffle's answers)",
-        "sample_from_ball in floating point: |x - x0|_2 <= r (1 + 1e-12) + 2^-51 |x0|_2 (the theorem C12_ball is over R)",
-        "gboost::sampler_t::sample: dispatch on the mode and count = floor(ratio * n) (compared with the sampler model per call)",
+        "sample_from_ball: the hypotheses of C12_fl_ball_twin on the observed values -- z = pow(unif, 1/n) in [0,1] (libm), the norm "
+        "returned by Eigen above sqrt(S)(1-u)sqrt(1-g_n) (proved for every reduction tree; that Eigen's redux IS such a tree is not "
+        "proved; checked in long double), no underflow / all finite (ball_ok, squares_nu evaluated by the driver)",
+        "the distributions of libstdc++ (normal, discrete {1,1}, uniform_real) are replayed, not modelled: the deviates are oracle inputs",
+        "gboost::sampler_t: that the harness' description of a call (losses / gradient magnitudes by sample index) is what the library "
+        "reads (compared per call); |gradient|_2 is an Eigen reduction (inputs chosen so that it is exact)",
         "std::shuffle permutes / uniform_int stays in [lo,hi] / discrete_distribution never draws a zero weight: premises of the "
         "theorems, checked on every observed answer (ORACLE lines), not proved about libstdc++",
         "the sampled generator stream: state after each sampler call equals the state after the replayed draws"]
